@@ -106,7 +106,8 @@ impl LinearLocatorState {
             line_start,
             line_end,
             line_number,
-            cursor: line_start,
+            // the cursor starts before a leading BOM: offset 0 is a legitimate first query
+            cursor: TextSize::default(),
             is_ascii,
         }
     }
@@ -221,7 +222,10 @@ impl<'a> LinearLocator<'a> {
             };
             (column, Some(state))
         } else {
-            let column = (offset - self.state.line_start).to_u32();
+            // an offset in front of the first line's start can only be inside a leading BOM
+            let column = offset
+                .to_u32()
+                .saturating_sub(self.state.line_start.to_u32());
             (column, None)
         };
         let state = new_state.as_ref().unwrap_or(&self.state);
